@@ -1199,8 +1199,8 @@ VARIANTS = [
             "        and (core.is_valid_python(source) or not core.is_valid_python(initial_content))\n",
             "        and (core.is_valid_python(initial_content) or not core.is_valid_python(initial_content))\n", "R3.2"),
     Variant("pattern-cli-writes-unconditionally", "FIRE", "pattern_matching",
-            "            if new_source != source:\n                filename.write_text(new_source)",
-            "            if new_source:\n                filename.write_text(new_source)", "R3.2"),
+            "            if new_source != source:\n                filename.write_text(new_source, encoding=encoding)",
+            "            if new_source:\n                filename.write_text(new_source, encoding=encoding)", "R3.2"),
     Variant("oracle-always-true", "FIRE", "core",
             "        ast.parse(source)\n        return True\n    except (SyntaxError, ValueError, RecursionError, MemoryError):\n        # ValueError: null bytes, lone surrogates. RecursionError: too deeply nested for the parser.\n        return False",
             "        ast.parse(source)\n        return True\n    except (SyntaxError, ValueError, RecursionError, MemoryError):\n        return True", "R3.4"),
